@@ -743,11 +743,15 @@ class PolyhedralTermList(TermList):  # noqa: WPS338
         logging.debug("Starting simplification procedure")
         logging.debug("Simplifying terms: %s", self)
         logging.debug("Context: %s", context)
+        # Terms without variables (such as 0 <= 3, which variable elimination can produce) are either
+        # trivially true or make the constraints unsatisfiable. They have no matrix representation.
+        new_self = self._without_variable_free_terms()
         if context:
-            new_self = self - context
+            context = context._without_variable_free_terms()
+            new_self = new_self - context
             result = PolyhedralTermList.termlist_to_polytope(new_self, context)
         else:
-            result = PolyhedralTermList.termlist_to_polytope(self, PolyhedralTermList())
+            result = PolyhedralTermList.termlist_to_polytope(new_self, PolyhedralTermList())
 
         variables = result[0]
         self_mat = result[1]
@@ -765,6 +769,15 @@ class PolyhedralTermList(TermList):  # noqa: WPS338
         simplified = PolyhedralTermList.polytope_to_termlist(a_red, b_red, variables)
         logging.debug("Back to terms: \n%s", simplified)
         return simplified
+
+    def _without_variable_free_terms(self) -> PolyhedralTermList:
+        kept = []
+        for term in self.terms:
+            if term.vars:
+                kept.append(term)
+            elif term.constant < 0:
+                raise ValueError("The constraint {} is unsatisfiable".format(term))
+        return PolyhedralTermList(kept)
 
     def refines(self, other: PolyhedralTermList) -> bool:
         """
